@@ -51,6 +51,10 @@ def render_events(events, in_body):
             pre = lit_args(sents)
             op = {1: "⅛", 2: "\" ⅛", 3: "∇ W ⅛"}[a]
             out.append((pre + " " if pre else "") + op)
+        elif k == "tilde":
+            # `~"`: the modifier pops its element's two arguments WITHOUT removing them (retain_popped): on an empty stack
+            # that is two implicit reads whose values stay on the stack, followed by the pair built from them
+            out.append("~\" W ⅛")
         elif k == "over":
             sents = ev[1]
             out.append((lit_args(sents) + " " if sents else "") + "Ȯ ⅛" + (" _" if sents else ""))
@@ -152,6 +156,13 @@ class Monitor:
                 g = minus(vals, sents, f"implicit pop of arity {a}")
                 if g:
                     scope.groups.append(g)
+            elif k == "tilde":
+                v = self.take("retaining pop")
+                if not isinstance(v, list) or len(v) != 3 or not isinstance(v[2], list) or len(v[2]) != 2:
+                    raise Mismatch("shape", f"~\" on an empty stack left {v}")
+                if sorted(map(key, v[:2])) != sorted(map(key, v[2])):
+                    raise Mismatch("shape", f"~\" retained {v[:2]} but paired {v[2]}")
+                scope.groups.append(list(v[:2]))
             elif k == "over":
                 v = self.take("over")
                 scope.groups.append([v])
@@ -308,8 +319,10 @@ class C11(core.Check):
                 a = r.choice([1, 1, 2, 2, 3])
                 p = r.randint(0, a - 1) if r.random() < 0.4 else 0
                 evs.append(["imp", a, [sent() for _ in range(p)]])
-            elif x < 0.55:
+            elif x < 0.53:
                 evs.append(["over", [sent()] if r.random() < 0.4 else []])
+            elif x < 0.57:
+                evs.append(["tilde"])
             elif x < 0.72 and depth < 2:
                 arity = r.choice([None, 0, 1, 2, 3, 1, 2])
                 a = 1 if arity is None else arity
